@@ -187,6 +187,34 @@ HAND = [
     "CC(O)CC(C)O>>CC(=O)CC(C)=O",
     "O=CCCC=O>>OCCCCO",
     "OCCO>>O=CC=O",
+    # dummy atoms, isotopes, bare protons
+    "[*][H]>>[H+]",
+    "C[*]>>C[*]",
+    "[*]CC(=O)O.CO>>[*]CC(=O)OC",
+    "[*]c1ccccc1Br>>[*]c1ccccc1",
+    "[*]O.[*]>>[*]O[*]",
+    "[2H]C([2H])([2H])O.CC(=O)O>>CC(=O)OC([2H])([2H])[2H]",
+    "[13CH3]O.CC(=O)O>>CC(=O)O[13CH3].O",
+    "[H+].[OH-]>>O",
+    "[H+].CC(=O)[O-]>>CC(=O)O",
+    "[13CH3]I.[OH-]>>[13CH3]O",
+    "[2H]O[2H].CC(=O)Cl>>CC(=O)O[2H]",
+    "[*]C(=O)OC>>[*]C(=O)O",
+    # isotope labels that are lost or moved
+    "[2H]C([2H])([2H])C([2H])([2H])[2H]>>[2H]C([2H])=C([2H])[2H]",
+    "[2H]C([2H])([2H])O[2H]>>[2H]C([2H])=O",
+    "[3H]C(C)=O.O>>CC=O.O[3H]",
+    "[2H]c1ccccc1.BrBr>>Brc1ccccc1.[2H]Br",
+    "C[13C](=O)O[2H].CO>>C[13C](=O)OC",
+    # repeated molecules reaching the MCS stage; both-sided imbalance with product-side carbon surplus
+    "COC(C)=O.COC(C)=O>>CC(=O)CC(=O)OC",
+    "CCOC(=O)c1ccccc1.CCOC(=O)c1ccccc1>>OC(=O)c1ccccc1.OC(=O)c1ccccc1",
+    "CC(=O)OC.CC(=O)OC.CC(=O)OC>>CC(=O)O.CC(=O)O.CC(=O)O",
+    "COc1ccccc1.COc1ccccc1>>Oc1ccccc1.Oc1ccccc1",
+    "CCBr.N>>CCN(CC)CC",
+    "CI.Nc1ccccc1>>CN(C)c1ccccc1",
+    "ClCc1ccccc1.NC>>CN(Cc1ccccc1)Cc1ccccc1",
+    "CCCl.CS>>CCS(C)(CC)",
     # repeated molecules
     "CC(=O)O.CC(=O)O>>CC(=O)OC(C)=O",
     "CCO.CCO.CCO>>CCOCC",
